@@ -195,7 +195,10 @@ def sites(F, crate="bytecode"):
                     idx = op_local(c.args[1]) if len(c.args) > 1 else None
                     if idx is None:
                         continue        # a literal index (e.g. arguments.remove(1)): not data-dependent; arity is a typing invariant (K4)
-                    yield {"kind": "K3", "fn": f, "bb": bi, "what": mir.short(nm), "ops": [idx], "idx": idx, "span": c.span}
+                    site = {"kind": "K3", "fn": f, "bb": bi, "what": mir.short(nm), "ops": [idx], "idx": idx, "span": c.span}
+                    if "bytecode::variables::primitive::Primitive" in " ".join(t["func"].get("ga") or [])[:200] and ("Vec::" in nm or "[T]>::" in nm):
+                        site["container"] = "the vector operated on is a program list (its length is program-valued)"
+                    yield site
 
 
 def inventory(F):
